@@ -291,6 +291,14 @@ def judge_twin(case, mine, other):
         return None
     if st in ("timeout", "crash") or so in ("timeout", "crash"):
         return f"literal side {st}: {tx} / hidden side {so}: {to}"
+    if case.id.endswith("/toplevel"):
+        # top-level twins: a swallowed run-time error (observation D3: Code::exec_unscoped drops the error of a non-last
+        # statement) leaves a name unbound and the next read panics - on both sides alike, or on the hidden side only when the
+        # literal side reports the always-failing constant operation early (permitted). Not C04's business.
+        if st == "panic" and so == "panic":
+            return None
+        if so == "panic" and st == "parse_error" and tx.split("|", 1)[0] in EXEC_ERRORS:
+            return None
     if st == "panic" or so == "panic":
         return f"panic: literal side {st}: {tx} / hidden side {so}: {to}"
     if st == "ok" and so == "ok":
@@ -1098,6 +1106,14 @@ TWIN_TEMPLATES = [
     ("error_order", "f := (x: int) -> int { return ([A][x]) + (B / (A - A)) }; f(5)"),
     ("float_ops", "x := 1.5; y := x * 2.0 - 0.25; (y, y / 0.0, y > x, -y)"),
     ("struct", "s := struct{a := A, b := B + C}; (s.a, s.b)"),
+    # names re-bound by the statement that also reads them (the literal side runs these as TOP-LEVEL statements)
+    ("destruct_swap_mixed", "x := A; m := mut B; y := *m; (x, y) := (y, x); (x, y)"),
+    ("destruct_swap_constants", "x := A; y := B; (x, y) := (y, x); (x, y)"),
+    ("destruct_rebind_reads_old", "m := mut A; x := *m; (x, y) := (B, x); (x, y)"),
+    ("destruct_rotate", "m := mut C; x := A; y := B; z := *m; (x, y, z) := (z, x, y); (x, y, z)"),
+    ("destruct_in_block", "m := mut C; x := A; r := { y := *m; (x, y) := (y, x); (x, y) }; (r, x)"),
+    ("set_rebind_reads_old", "m := mut A; x := *m; x := x + B; x := x * C; y := B; y := y - x; (x, y)"),
+    ("set_rebind_constant_then_runtime", "m := mut B; x := A; x := x + *m; x := x * C; x"),
 ]
 
 
@@ -1198,6 +1214,16 @@ class _Gen:
     def stmt(self, d):
         r = self.r
         c = r.random()
+        if c < 0.06 and len(self.ints) >= 2:
+            # destructuring that REBINDS names it also reads (swap / rotate / mixed with a fresh value)
+            k = r.randint(2, min(3, len(self.ints)))
+            names = r.sample(self.ints, k)
+            rhs = [r.choice(names + [self.int_e(1)]) for _ in names]
+            return f"({', '.join(names)}) := ({', '.join(rhs)})"
+        if c < 0.1 and self.ints:
+            # re-declaration that reads the old binding
+            v = r.choice(self.ints)
+            return f"{v} := ({v} {r.choice(['+', '*', '-', '^'])} {self.int_e(1)})"
         if c < 0.22:
             v = self.fresh("v")
             s = f"{v} := {self.int_e(2)}"
@@ -1271,6 +1297,15 @@ def fam_twins_random(tier, seed, extra=()):
         h = Case(f"rtwin/{k}/hidden", hprog, None, vs, mode="std")
         out.append(h)
         out.append(Case(f"rtwin/{k}/literal", lprog, Twin(h.id), mode="std", what=f"random program #{k} (seed {seed})"))
+        # the same literal program as TOP-LEVEL statements (Code::parse creates and folds those one by one)
+        # (compared with a top-level twin whose constants are read through cells, so that both sides are subject to the
+        #  same top-level error handling of Code::exec_unscoped - observation D3)
+        tprog = sub(f"{body}; {res}", [lit_i(v) for v in ks], [lit_f(v) for v in fs], "true" if b0 else "false")
+        hide = "; ".join([f"ck{i} := *(mut {lit_i(v)})" for i, v in enumerate(ks)] + [f"cf{i} := *(mut {lit_f(v)})" for i, v in enumerate(fs)]
+                         + [f"cb0 := *(mut {'true' if b0 else 'false'})"])
+        htop = Case(f"rtwin/{k}/toplevel_hidden", hide + "; " + sub(f"{body}; {res}", ["ck0", "ck1", "ck2", "ck3"], ["cf0", "cf1"], "cb0"), None, {}, mode="std")
+        out.append(htop)
+        out.append(Case(f"rtwin/{k}/toplevel", tprog, Twin(htop.id), mode="std", what=f"random program #{k} at top level (seed {seed})"))
     return out
 
 
